@@ -105,8 +105,26 @@ def sig_with_meta(rng):
                                                 .get(attr, [None, False, True]))
         kind += '+explicit_attrs'
     a.add_model_sig(msig)
+    if rng.random() < 0.25:
+        # an app that used to carry the label `vapp` (its legacy label) and is stored BEFORE the app whose id is
+        # `vapp`: two entries that one label can mean
+        from django_evolution.signature import FieldSignature
+        ext = AppSignature(app_id='vapp_ext', legacy_app_label='vapp', upgrade_method=UpgradeMethod.EVOLUTIONS)
+        em = ModelSignature(model_name='Note', table_name='vapp_ext_note')
+        em.add_field_sig(FieldSignature(field_name='id', field_type=models.AutoField, field_attrs={'primary_key': True}))
+        ext.add_model_sig(em)
+        p.add_app_sig(ext)
+        kind += '+legacy_label_shadows_id'
     p.add_app_sig(a)
     return p, kind
+
+
+def app_by_id(sig, app_id):
+    """the entry whose id is `app_id` (not what a label lookup with its legacy fallback would give)"""
+    for a in sig.app_sigs:
+        if a.app_id == app_id:
+            return a
+    return None
 
 
 def attr_load_correspondence(ctx, n):
@@ -249,7 +267,7 @@ def run(ctx):
         else:
             # what was read is the caller's to change (the evolver simulates into it): a second read of the same,
             # untouched row must still give what was written
-            la = loaded.get_app_sig('vapp')
+            la = app_by_id(loaded, 'vapp')
             if la is not None and la.get_model_sig('Alpha') is not None:
                 la.remove_model_sig('Alpha')
             again = Version.objects.get(pk=ver.pk).signature
@@ -271,7 +289,7 @@ def run(ctx):
             v1 = ProjectSignature.deserialize(sig.serialize(sig_version=1))
             back = ProjectSignature.deserialize(json.loads(json.dumps(v1.serialize(sig_version=2)),
                                                            object_pairs_hook=OrderedDict))
-            ma, mb = sig.get_app_sig('vapp').get_model_sig('Alpha'), back.get_app_sig('vapp').get_model_sig('Alpha')
+            ma, mb = app_by_id(sig, 'vapp').get_model_sig('Alpha'), app_by_id(back, 'vapp').get_model_sig('Alpha')
             canon = lambda f: dict(sigs.abs_field(f), attrs=sorted(sigs.abs_field(f)['attrs']))
             same = ([canon(f) for f in ma.field_sigs] == [canon(f) for f in mb.field_sigs] and
                     ma.unique_together == mb.unique_together and ma.table_name == mb.table_name)
@@ -289,7 +307,7 @@ def run(ctx):
             except Exception as e:
                 ctx.fail(None, 'a legacy (pickled, version 1) row does not load: %s' % type(e).__name__, rep)
                 continue
-            mc = row.get_app_sig('vapp').get_model_sig('Alpha')
+            mc = app_by_id(row, 'vapp').get_model_sig('Alpha')
             ctx.count('v1_legacy_row%s' % (':non_ascii' if any(ord(ch) > 127 for ch in legacy_text) else ''))
             if not ([canon(f) for f in ma.field_sigs] == [canon(f) for f in mc.field_sigs] and
                     ma.unique_together == mc.unique_together and ma.table_name == mc.table_name):
